@@ -34,7 +34,7 @@ def check_kw(case, stats):
     ind, sep, trail = LAYOUTS[lay]
     D = DIALECTS[d]
     pre = [] if mode == "default" else ["# language: " + d]
-    dflt = d if mode == "default" else ("en" if d != "en" else "fr")
+    dflt = d if mode in ("default", "header-same") else ("en" if d != "en" else "fr")
     F, SC, SO = D["feature"][0], D["scenario"][0], D["scenarioOutline"][0]
     stats.case((d, cat, kw, mode, lay), True, sample=case, labels=[cat, mode] + (["no-space-step-keyword"] if cat in STEP_CATS and not kw.endswith(" ") else []))
     if cat in TITLE_CATS:
@@ -93,8 +93,8 @@ def unit_positive(a):
                 continue
             for cat in TITLE_CATS + STEP_CATS:
                 for kw in DIALECTS[d][cat]:
-                    for mode in ("default", "header"):
-                        for lay in range(len(LAYOUTS)):
+                    for mode in ("default", "header", "header-same"):
+                        for lay in range(len(LAYOUTS) if mode != "header-same" else 1):
                             yield {"sub": "kw", "dialect": d, "cat": cat, "kw": kw, "mode": mode, "layout": lay}
     sweep(stats, gen(), check_kw)
     return stats
